@@ -522,6 +522,8 @@ def r7(run, ctx):
         if isinstance(c, ast.Call))]
     if not run.need('R7', tries, 'try around cmd.validate/cmd.execute', f):
         return
+    # innermost try whose body holds the execute call
+    tries.sort(key=lambda t: sum(1 for _ in ast.walk(t)))
     t = tries[0]
     hs = [_handler_names(h) for h in t.handlers]
     run.check('R7', hs and ('*' in hs[-1] or 'Exception' in hs[-1] or 'BaseException' in hs[-1]),
